@@ -9,10 +9,13 @@ checks = {
  "C05": ("Encode on Files built through the public API with symbolic field values, output parsed by an independent grammar walker in the harness (header, definitions, records, sizes, CRCs, wire values) and the File's bookkeeping compared with the bytes written", "§5/C05"),
  "C06": ("the bytes Encode wrote (symbolic terms) are fed to the real Decode on the same path and the decoded File compared field by field with the original", "§5/C06"),
  "C07": ("messages produced by the real record parser from arbitrary accepted single-field definitions and data are stored in a File, encoded, integrity-checked, decoded, encoded and decoded again on one symbolic path; encodability, counts and the fixpoint are solver-decided", "§5/C07"),
+ "C10": ("streams generated from a FIT stream model with arbitrary field bytes, read through a chunking reader that records every request; Decode/CheckIntegrity/DecodeHeader/DecodeHeaderAndFileID/DecodeChained run on the same symbolic stream and compared", "§5/C10"),
+ "C11": ("the model streams cut or faulted at every offset (case-split by the solver), all entry points; chain boundary with cut, fault and stray byte", "§5/C11"),
  "C12": ("step lemma over all 2^32 reference timestamps x 32 offsets x 256 header bytes, conversions over all 2^32 field values, short sequences through the real record parser", "§5/C12"),
  "C13": ("one record through the real decodeFileData loop from a state with 16 distinguishable definitions, header byte and record bytes symbolic", "§5/C13"),
  "C14": ("updateByte == bit-serial CRC-16/ARC step for all 2^24 (state, byte) pairs; streaming interface == fold of that step for <= 8 bytes and every split; residue rule from every state", "§5/C14"),
  "C15": ("table facts with field number (8 bit) and message number (16 bit) symbolic over the tables interpreted from the tree's init code; constructors executed from SSA", "§5/C15"),
+ "C16": ("model streams (uncut and cut at every offset) decoded without options and with a symbolic option combination, results compared; counters compared with the generator's expectation; sortedness over symbolic keys and every map order", "§5/C16"),
  "C17": ("integer clauses and time bijection over all 2^32 values; Degrees exactness per magnitude class with the FP theory; degrees round trip for small magnitudes", "§5/C17"),
  "C18": ("the five expansions on messages whose every integer field is symbolic; accumulator step from an arbitrary state; two-file sequence", "§5/C18"),
  "C20": ("every generated type's real String method with the receiver symbolic over its full width against the constant table read from go/types", "§5/C20"),
@@ -20,9 +23,6 @@ checks = {
 na = {
  "C08": "not yet claimed in this commit: shared-write frame harness under construction",
  "C09": "not yet claimed in this commit: reduced non-interference claim depends on C08's frame",
- "C10": "not yet claimed in this commit: framing harnesses under construction",
- "C11": "not yet claimed in this commit: truncation/fault harnesses under construction",
- "C16": "not yet claimed in this commit: option harnesses under construction",
  "C19": "fitgen: the property quantifies over workbook files and product-profile selections pushed through xlsx parsing, text generation, go/format, file I/O and a go build; none of it is a bounded integer computation the SSA encoder can reach, and there is no symbolic input short of a whole spreadsheet",
 }
 import sys
